@@ -77,6 +77,7 @@ fn main() {
         "fixed_locale" => fixedloc::sweep(seed),
         "limits" => conn::limits(seed),
         "session" => conn::session(seed),
+        "enc_response" => conn::enc_response(seed),
         "cookie_matrix" => conn::cookie_matrix(seed),
         "cipher" => cipher::schedules(seed),
         "mojang" => mojang::request(seed),
